@@ -28,6 +28,7 @@ inductive Opt where
   | path (p : String)
   | maxSize (n : Nat)
   | maxBackups (n : Nat)
+  | mask (m : Nat)          -- `WithMask`: only file modes, which the directory model does not carry
 deriving Repr
 
 /-- the part of a `Rotator` that `New` fills in (`pathSet = false`: still `DefaultPath()`) -/
@@ -45,6 +46,12 @@ def applyOpt (r : Built) : Opt → Option Built
   | .path p => if p = "" then none else some { r with pathSet := true }
   | .maxSize n => some { r with cfg := { r.cfg with maxSize := n } }
   | .maxBackups n => some { r with cfg := { r.cfg with maxBackups := n } }
+  | .mask _ => some r
+
+/-- `MaxSize(int64)` / `MaxBackups(int)` accept negative numbers; in both tests that read them (`size+n > maxSize` with
+    `size > 0`, `maxBackups < 1`) a negative limit acts like 0 (`Props.C12.negative_limits_act_as_zero`), so the
+    natural-number configuration of a signed argument is its clamp -/
+def clampLimit (i : Int) : Nat := i.toNat
 
 /-- `New(options...)`: the loop over the options, first error wins -/
 def new (opts : List Opt) : Option Built :=
@@ -71,6 +78,74 @@ def renameChain (f : Files) : Nat → Files
 def rotateFiles (cfg : Cfg) (f : Files) : Files :=
   if cfg.maxBackups < 1 then f.set 0 none
   else renameChain (f.set cfg.maxBackups none) cfg.maxBackups
+
+/-- the shift that the rename chain implements -/
+def shift (cfg : Cfg) (f : Files) : Files := fun j =>
+  if j = 0 then none else if j ≤ cfg.maxBackups then f (j - 1) else f j
+
+theorem renameChain_spec (f : Files) (m : Nat) (hm : f m = none ∨ m = 0) :
+    ∀ j, renameChain f m j = if j = 0 then (if m = 0 then f 0 else none) else if j ≤ m then f (j - 1) else f j := by
+  induction m generalizing f with
+  | zero => intro j; simp only [renameChain]; by_cases h : j = 0 <;> simp [h]
+  | succ k ih =>
+    intro j
+    have hfk : f (k+1) = none := by rcases hm with h | h; exact h; omega
+    simp only [renameChain]
+    -- after mv k (k+1): index k is empty, k+1 holds old k
+    have hmv : ∀ x, mv f k (k+1) x = if x = k+1 then f k else if x = k then none else f x := by
+      intro x; unfold mv
+      cases hk : f k with
+      | none =>
+        by_cases h1 : x = k+1
+        · simp [h1, hfk]
+        · by_cases h2 : x = k <;> simp [h1, h2, hk]
+      | some c =>
+        simp only [Files.set]
+        by_cases h1 : x = k+1
+        · subst h1; simp
+        · by_cases h2 : x = k <;> simp [h1, h2]
+    have hk0 : mv f k (k+1) k = none ∨ k = 0 := Or.inl (by rw [hmv]; simp)
+    rw [ih (mv f k (k+1)) hk0 j]
+    by_cases j0 : j = 0
+    · subst j0
+      by_cases k0 : k = 0
+      · subst k0; simp [hmv]
+      · simp [k0]
+    · simp only [j0, if_false]
+      by_cases jk : j ≤ k
+      · have : j - 1 ≠ k + 1 := by omega
+        have : j - 1 ≠ k := by omega
+        have : j ≤ k + 1 := by omega
+        simp [*]
+      · by_cases jk1 : j = k + 1
+        · subst jk1; simp [hmv]; intro h; omega
+        · have : ¬ j ≤ k + 1 := by omega
+          have : j ≠ k := by omega
+          simp [*]
+
+theorem rotateFiles_eq_shift (cfg : Cfg) (f : Files) : rotateFiles cfg f = shift cfg f := by
+  funext j
+  unfold rotateFiles shift
+  by_cases h : cfg.maxBackups < 1
+  · have : cfg.maxBackups = 0 := by omega
+    simp [this, Files.set]
+    by_cases j0 : j = 0 <;> simp [j0]
+  · simp only [h, if_false]
+    rw [renameChain_spec _ _ (Or.inl (by simp [Files.set]))]
+    by_cases j0 : j = 0
+    · have : cfg.maxBackups ≠ 0 := by omega
+      simp [j0, this]
+    · simp only [j0, if_false]
+      by_cases jm : j ≤ cfg.maxBackups
+      · have : j - 1 ≠ cfg.maxBackups := by omega
+        simp [jm, Files.set, this]
+      · have : j ≠ cfg.maxBackups := by omega
+        simp [jm, Files.set, this]
+
+/-- compiled code uses the shift instead of the chain of `mv` closures (whose evaluation cost doubles with every link:
+    MaxBackups 25 would need 2^25 steps per lookup); the replacement is the theorem above, checked by the kernel -/
+@[csimp] theorem rotateFiles_eq_shift_compiled : @rotateFiles = @shift := by
+  funext cfg f; exact rotateFiles_eq_shift cfg f
 
 def rotate (cfg : Cfg) (s : St) : St := { files := rotateFiles cfg s.files, isOpen := false, size := 0 }
 
